@@ -2,8 +2,9 @@
 from props import element_common as ec
 
 NAMESPACE = 'C05'
-LEAN_TARGETS = ['MxV.Props.C05']
-THEOREMS = ['enum_accepts_iff', 'enum_rejects_other', 'range_exact', 'minExclusive_exact', 'minInclusive_exact', 'bool_passes_integer', 'exponent_float_passes_decimal', 'nan_passes_decimal']
+LEAN_TARGETS = ['MxV.Props.C05', 'MxV.Tables.D_patterns']
+THEOREMS = ['enum_accepts_iff', 'enum_rejects_other', 'range_exact', 'minExclusive_exact', 'minInclusive_exact', 'bool_passes_integer', 'exponent_float_passes_decimal', 'nan_passes_decimal', 'patterns_agree', 'pattern_language_is_schema', 'validator_pattern_is_schema',
+            'every_pattern_has_schema', 'every_schema_pattern_is_enforced', 'pattern_count']
 TRUSTED_BASE = ['Lean 4.33.0 kernel', 'axioms: propext, Quot.sound, Classical.choice only (audited per theorem)',
                 'translator extract/*.py (attribute / validator / template tables regenerated every run)',
                 'correspondence harness: real XMLElement trees vs the Lean models Element, Values, Serialize, Parser, Mfull through mxdriver',
@@ -20,8 +21,59 @@ def oracle(d):
     return None
 
 
+def pattern_search(ctx):
+    """the pattern theorems no longer check: ask the model for a word on which the library's expression and the
+    schema's differ, and replay it on the real type"""
+    import lib, values
+    out = []
+    drv = lib.Driver()
+    try:
+        rows = [r for r in drv.ask('patdiff').split(';') if r]
+    finally:
+        drv.close()
+    import json, os
+    names = json.load(open(os.path.join(os.path.dirname(os.path.abspath(lib.__file__)), '..', 'build', 'strs.json')))['strs']
+    for row in rows:
+        k, w, mi, ms = row.split(':')
+        cls_name = names[int(k)][2:]
+        if w in ('-', '!', '?'):
+            out.append({'replay': {'property': 'C05', 'kind': 'proof-obligation-broken', 'type': cls_name,
+                                   'what': {'-': 'the library matches a pattern for this type but the schema has none in force',
+                                            '!': 'the schema has a pattern in force for this type but the library matches none',
+                                            '?': 'equivalence not established within the exploration bound'}[w],
+                                   'no_failing_input_found': True}, 'suffix': ' no-failing-input-found'})
+            continue
+        text = ''.join(chr(int(c)) for c in w.split(',') if c)
+        cls = values.SIMPLE.get(cls_name)
+        real = values.real_validate(cls, text) if cls else 'n/a'
+        schema_ok = ms == 'true'
+        real_ok = real.startswith('ok')
+        payload = {'property': 'C05', 'type': cls_name, 'input': text, 'input_codepoints': w,
+                   'library': real, 'library_expression_matches': mi, 'schema_pattern_matches': ms,
+                   'theorem': 'C05.patterns_agree / C05.pattern_language_is_schema'}
+        if real_ok != schema_ok:
+            payload.update({'kind': 'property-violated-on-real-code',
+                            'what_fails': '%s(%r) is %s by the library but %s by the schema pattern in force for the type' % (
+                                cls_name, text, 'accepted' if real_ok else 'rejected', 'accepted' if schema_ok else 'rejected')})
+            out.append({'replay': payload})
+        else:
+            payload.update({'kind': 'proof-obligation-broken', 'no_failing_input_found': True,
+                            'note': 'the two expressions differ on this word, but another check of the type decides it the same way'})
+            out.append({'replay': payload, 'suffix': ' no-failing-input-found'})
+    return out
+
+
 def run(ctx):
-    return ec.generic(ctx, 'C05', OPTS, n_quick=(32, 60), n_thorough=(96, 300), with_values=True, with_parse=False, oracle=oracle)
+    res = ec.generic(ctx, 'C05', OPTS, n_quick=(32, 60), n_thorough=(96, 300), with_values=True, with_parse=False, oracle=oracle)
+    ax = ctx.axioms.get('C05.patterns_agree')
+    if ax is None or not set(ax) <= {'propext', 'Quot.sound', 'Classical.choice'}:
+        try:
+            found = pattern_search(ctx)
+        except Exception as e:
+            found = []
+            res.setdefault('coverage', {})['pattern_search_error'] = repr(e)
+        res['violations'] = list(res.get('violations', [])) + found[:6]
+    return res
 
 
 def replay(ctx, payload):
